@@ -41,6 +41,9 @@ PROJECTS = {
     'page_names': [('pn', '', True), ('pn.a', 'class b:\n    class c: pass\n', False), ('pn.z', 'class Index: pass\nclass index: pass\n', False)],
     'zope': [('z', 'from zope.interface import Interface, implementer\nclass IFoo(Interface):\n    def m(): pass\n'
                    '@implementer(IFoo)\nclass Foo:\n    def m(self): pass\nclass Sub(Foo): pass\n', False)],
+    # decorators that only mean something in a class body, used at module level and in a function
+    'module_level_decorated': [('md', '@staticmethod\ndef make(): pass\n@classmethod\ndef create(cls): pass\ndef plain(): pass\n@property\ndef prop(): pass\n'
+                                      'class K:\n    @staticmethod\n    def s(): pass\n    @classmethod\n    def c(cls): pass\n    def m(self): pass\n', False)],
     # a name that is a method (or a nested class) first and is then assigned an Attribute / schema field
     'zope_rebound': [('zr', 'from zope.interface import Interface, Attribute\nimport zope.schema as schema\nclass IFoo(Interface):\n    def x(): "method"\n    x = Attribute("now an attribute")\n'
                             '    def f(): "method"\n    f = schema.TextLine(description="d")\n    class N: pass\n    N = Attribute("was a class")\n'
@@ -128,6 +131,9 @@ def check_model(system):
         if isinstance(o, model.Function) and isinstance(o.parent, model.Class) and \
                 o.kind not in (model.DocumentableKind.METHOD, model.DocumentableKind.CLASS_METHOD, model.DocumentableKind.STATIC_METHOD):
             fails.append({'observed': f'{key} is a {o.kind} directly in a class', 'required': 'functions directly in classes are methods', 'class': 'kind'})
+        if isinstance(o, model.Function) and not isinstance(o.parent, model.Class) and \
+                o.kind in (model.DocumentableKind.METHOD, model.DocumentableKind.CLASS_METHOD, model.DocumentableKind.STATIC_METHOD):
+            fails.append({'observed': f'{key} is a {o.kind.name} in a {type(o.parent).__name__}', 'required': 'has a kind that fits its place (methods live in classes)', 'class': 'kind-outside-class'})
         if isinstance(o, model.Module) and o.parent is not None and not isinstance(o.parent, model.Package):
             fails.append({'observed': f'module {key} sits in a {type(o.parent).__name__}', 'required': 'modules sit only in packages', 'class': 'module-place'})
         if isinstance(o, (model.Function, model.Attribute)) and o.contents:
